@@ -376,6 +376,11 @@ def rule_fmt_lang(ctx: RuleContext, p: Program, g: rx.Grammar, rid: str) -> None
         rule = p.class_const(c, 'RULE')
         tname = rule.value if isinstance(rule, ast.Constant) else None
         site = f'{c.module.name.split(".", 1)[1]}:{c.name}._format_value'
+        if lang is None and ann == 'decimal.Decimal' and tname in g.terminals:
+            # a formatter whose shape gives no regular output language (a branch on the value's exponent, a helper): NUM-RT evaluates it instead
+            n += 1
+            ctx.ok(rid, site, note='output language not derivable from the shape of the formatter: decided by evaluation (NUM-RT)', nontrivial=False)
+            continue
         if lang is None or tname not in g.terminals:
             raise AnalysisError(f'FMT-LANG: cannot derive the output language of {site} ({ann})')
         n += 1
@@ -631,6 +636,7 @@ def run(ctx: RuleContext, p: Program) -> None:
     ctx.try_rule(rule_bc_rt, p, g, 'BC-RT')
     ctx.try_rule(rule_tok_rt, p, g, 'TOK-RT')
     ctx.try_rule(rule_lex_accept, p, g, 'LEX-ACCEPT')
+    ctx.try_rule(rule_num_rt, p, g, 'NUM-RT')
     from . import bcline
     ctx.try_rule(bcline.rule_bc_line, p, 'BC-LINE')
     ctx.try_rule(rule_fmt_lang, p, g, 'FMT-LANG')
@@ -1345,3 +1351,112 @@ def rule_lex_accept(ctx: RuleContext, p: Program, g: rx.Grammar, rid: str) -> No
             problem = problem or f'the {tname} lexeme {lx!r} reads as {got!r}, its digits spell {want!r}'
     ctx.check(problem is None, rid, 'models.number:Number._parse_value', 'every NUMBER lexeme is accepted and means its digits', problem or '', prs.where,
               note=f'{len(lexemes)} lexemes')
+
+
+def rule_num_rt(ctx: RuleContext, p: Program, g: rx.Grammar, rid: str) -> None:
+    """the writer side of Number, evaluated (FMT-LANG decides it by language inclusion when it recognises the shape of the formatter; this rule does
+    not depend on the shape): what _format_value writes for a finite non-negative decimal is one NUMBER lexeme that reads back as that value"""
+    import decimal
+    from . import possem
+    from .tokenstore import TS
+    ctx.rule(rid, 'Number._format_value, interpreted on a pool of finite non-negative decimals (everyday amounts, positive exponents as normalize() '
+                  'leaves them, magnitudes below 1e-6 and zeros with seven or more decimals -- where str() of a Decimal switches to scientific '
+                  'notation --, trailing zeros, more digits than the arithmetic context keeps, also under a context of 6 digits): the text is '
+                  'one lexeme of the NUMBER terminal of the grammar, and Number._parse_value, interpreted on it, gives a decimal equal to the value')
+    c = p.cls('Number', 'models.number')
+    fmt, prs = c.lookup('_format_value'), c.lookup('_parse_value')
+    if not isinstance(fmt, FuncInfo) or not isinstance(prs, FuncInfo):
+        raise AnalysisError('NUM-RT: Number._format_value / _parse_value vanished')
+    rule = p.class_const(c, 'RULE')
+    tname = rule.value if isinstance(rule, ast.Constant) else None
+    if tname not in g.terminals:
+        raise AnalysisError('NUM-RT: Number.RULE is not a terminal of the grammar')
+    term = re.compile(g.terminals[tname].pattern.to_regexp())
+    ts = TS(p)
+    clsobj = possem.Obj('NumberClass', {}, 'cls')
+
+    class Interp(possem.PosInterp):
+        tag = 'NUM-RT'
+
+        def expr(self, e: Any, env: dict) -> Any:                 # type: ignore[override]
+            if isinstance(e, ast.Call) and norm(e.func) in ('decimal.Decimal', 'Decimal') and len(e.args) == 1 and not e.keywords:
+                v = self.expr(e.args[0], env)
+                if not isinstance(v, (str, int, decimal.Decimal)) or isinstance(v, bool):
+                    raise self.err(e, 'Decimal() of an abstract value')
+                try:
+                    return decimal.Decimal(v)
+                except decimal.InvalidOperation:
+                    raise possem.Raised(f'decimal.InvalidOperation: Decimal({v!r})')
+            if isinstance(e, ast.Attribute) and isinstance(e.value, ast.Name) and env.get(e.value.id) is clsobj:
+                k_ = p.class_const(c, e.attr)
+                if k_ is not None:
+                    return self.expr(k_, {})
+            if isinstance(e, ast.Call) and isinstance(e.func, ast.Name) and e.func.id in ('format', 'str', 'abs', 'repr') and e.func.id not in env \
+                    and e.args and not e.keywords:
+                a = [self.expr(x, env) for x in e.args]
+                if isinstance(a[0], decimal.Decimal) and all(isinstance(x, str) for x in a[1:]):
+                    try:
+                        return {'format': format, 'str': str, 'abs': abs, 'repr': repr}[e.func.id](*a)      # the decimal module: trusted, as `re` is
+                    except (ValueError, TypeError, decimal.InvalidOperation) as ex:
+                        raise possem.Raised(f'{type(ex).__name__}: {ex}')
+            if isinstance(e, ast.JoinedStr):
+                out = ''
+                for part in e.values:
+                    if isinstance(part, ast.Constant):
+                        out += str(part.value)
+                        continue
+                    v_ = self.expr(part.value, env)
+                    if not isinstance(v_, decimal.Decimal):
+                        return super().expr(e, env)
+                    spec = ''.join(str(x.value) for x in part.format_spec.values if isinstance(x, ast.Constant)) if part.format_spec is not None else ''
+                    v2 = str(v_) if part.conversion == 115 else repr(v_) if part.conversion == 114 else v_
+                    out += format(v2, spec)
+                return out
+            if isinstance(e, (ast.UnaryOp, ast.BinOp)):
+                # decimal arithmetic under the arithmetic context in force (rounds to its precision)
+                try:
+                    if isinstance(e, ast.UnaryOp) and isinstance(e.op, (ast.USub, ast.UAdd)):
+                        v_ = self.expr(e.operand, env)
+                        if isinstance(v_, decimal.Decimal):
+                            return -v_ if isinstance(e.op, ast.USub) else +v_
+                    if isinstance(e, ast.BinOp) and isinstance(e.op, (ast.Add, ast.Sub, ast.Mult)):
+                        l_, r_ = self.expr(e.left, env), self.expr(e.right, env)
+                        if isinstance(l_, decimal.Decimal) and isinstance(r_, (decimal.Decimal, int)) or isinstance(r_, decimal.Decimal) and isinstance(l_, int):
+                            return l_ + r_ if isinstance(e.op, ast.Add) else l_ - r_ if isinstance(e.op, ast.Sub) else l_ * r_
+                except decimal.InvalidOperation as ex:
+                    raise possem.Raised(f'decimal.InvalidOperation: {ex}')
+            return super().expr(e, env)
+
+    pool = ['0', '1', '7', '42.10', '100', '100.00', '1234567.89', '0.5', '0.10', '0.000', '1E+2', '1.5E+3', '0E+2', '12E0', '1E+30',
+            '0.000001', '0.0000001', '0.00000001', '1E-7', '0.000000857', '0E-7', '0.0000000', '1.0E-10', '5E-1', '1.234E-9',
+            '123456789012345678901234567890.123456789', '0.1234567890123456789012345678901234567890', '99999999999999999999999999999.5']
+    problem = None
+    n = 0
+    for prec in (28, 6):
+        for txt in pool:
+            v = decimal.Decimal(txt)
+            with decimal.localcontext() as lc:
+                lc.prec = prec
+                n += 1
+                shown = f'Decimal({txt!r})' + (f' under a context of {prec} digits' if prec != 28 else '')
+                try:
+                    out = Interp(ts, [], module=fmt.module).call_function(fmt, [clsobj, v], {})
+                except possem.Raised as ex:
+                    problem = problem or f'{shown} is refused by _format_value ({ex}): a finite non-negative decimal is in the domain of Number'
+                    continue
+                if not isinstance(out, str):
+                    raise AnalysisError(f'NUM-RT: _format_value({shown}) evaluates to {out!r}')
+                if not term.fullmatch(out):
+                    problem = problem or (f'{shown} is written as {out!r}, which is not a lexeme of {tname} ({term.pattern!r}): str() of a Decimal uses scientific '
+                                          f'notation for a positive exponent and for an adjusted exponent below -6; the printed ledger no longer parses')
+                    continue
+                try:
+                    back = Interp(ts, [], module=prs.module).call_function(prs, [clsobj, out], {})
+                except possem.Raised as ex:
+                    problem = problem or f'{shown} is written as {out!r}, which _parse_value refuses ({ex})'
+                    continue
+                if not isinstance(back, decimal.Decimal) or back.compare_total(v) != 0 and (back.as_tuple().sign, back.normalize(decimal.Context(prec=200)).as_tuple()) != (v.as_tuple().sign, v.normalize(decimal.Context(prec=200)).as_tuple()):
+                    problem = problem or (f'{shown} is written as {out!r}, which reads back as {back!r}: digits are lost on the way into the text '
+                                          f'(abs(), unary minus and arithmetic round to the precision of the context; copy_abs / copy_negate and format do not)')
+    ctx.check(problem is None, rid, 'models.number:Number._format_value', 'every decimal of the pool is written as one NUMBER lexeme that reads back as it',
+              problem or '', fmt.where, note=f'{n} (value, context) pairs')
